@@ -32,7 +32,10 @@ pub fn run_one(b: u64, kind: &str, labels: &[String], seed: u64) -> Value {
     let other = crypto::keypair(2);
     let pk = victim.verifying_key().to_bytes();
     let opk = other.verifying_key().to_bytes();
-    let salt: Option<Vec<u8>> = if kind == "mutable_salt" { Some(b"the salt".to_vec()) } else if kind == "mutable_empty_salt" { Some(vec![]) } else { None };
+    // mutable_binsalt: a salt that is not valid UTF-8 (a hash, a random id); `colliding_salt` is the victim's own item for a salt
+    // of the same length that differs only in bytes that are invalid UTF-8 (equal after a lossy text conversion)
+    let salt: Option<Vec<u8>> = if kind == "mutable_salt" { Some(b"the salt".to_vec()) } else if kind == "mutable_empty_salt" { Some(vec![]) }
+        else if kind == "mutable_binsalt" { Some(b"chan\x81\xfe\x00\xc3".to_vec()) } else { None };
     let imm_value = |i: usize| format!("immutable value #{i}").into_bytes();
     let target: [u8; 20] = match kind {
         "immutable" => crypto::immutable_target(b"the wanted immutable value"),
@@ -119,6 +122,8 @@ pub fn run_one(b: u64, kind: &str, labels: &[String], seed: u64) -> Value {
                     "wrong_key" => (opk.to_vec(), mval.clone(), seq, crypto::sign_mutable(&other, seq, &mval, s).to_vec()),
                     // the victim's own item, signed for another salt
                     "other_salt" => (pk.to_vec(), mval.clone(), seq, crypto::sign_mutable(&victim, seq, &mval, Some(b"another salt")).to_vec()),
+                    // signed by the victim WITH THE LIBRARY (the victim publishes under both salts with this crate), replayed for the other salt
+                    "colliding_salt" => (pk.to_vec(), mval.clone(), seq, dht::MutableItem::new(&victim, &mval, seq, Some(b"chan\x80\xff\x00\xc3")).signature().to_vec()),
                     "bad_sig" => (pk.to_vec(), mval.clone(), seq, flip(good, 100 + i)),
                     "flipped_seq" => (pk.to_vec(), mval.clone(), seq + 1, good),
                     "flipped_v" => (pk.to_vec(), flip(mval.clone(), 9), seq, good),
